@@ -591,8 +591,20 @@ func (y *vsSys) registrationProbes(s *vsState) *engine.Violation {
 		{"key-not-json", func() error { return k.RegisterExecutorChangePlan(1, h, valOf("o3"), "m", "garbage", "i", e) }},
 		{"bad-operator", func() error { return k.RegisterExecutorChangePlan(1, h, "notanaddress", "m", good, "i", e) }},
 		{"operator-with-account-prefix", func() error { return k.RegisterExecutorChangePlan(1, h, world.Addr("o3").String(), "m", good, "i", e) }},
-		{"bad-executor", func() error {
+		{"bad-executor-last", func() error {
 			return k.RegisterExecutorChangePlan(1, h, valOf("o3"), "m", good, "i", []string{world.Addr("e2").String(), "nope"})
+		}},
+		{"bad-executor-first", func() error {
+			return k.RegisterExecutorChangePlan(1, h, valOf("o3"), "m", good, "i", []string{"nope", world.Addr("e2").String()})
+		}},
+		{"bad-executor-middle", func() error {
+			return k.RegisterExecutorChangePlan(1, h, valOf("o3"), "m", good, "i", []string{world.Addr("e1").String(), "cosmos1nope", world.Addr("e2").String()})
+		}},
+		{"executor-with-validator-prefix", func() error {
+			return k.RegisterExecutorChangePlan(1, h, valOf("o3"), "m", good, "i", []string{valOf("o1"), world.Addr("e2").String()})
+		}},
+		{"bad-executor-only", func() error {
+			return k.RegisterExecutorChangePlan(1, h, valOf("o3"), "m", good, "i", []string{""})
 		}},
 	}
 	for hh := range s.plans {
